@@ -147,6 +147,28 @@ theorem default_filter_keeps (pl : Bytes) (ts : List Tok) (t : Tok) :
         ∃ p ∈ ts, isPermAt pl p = true ∧ ∃ lt ∈ p.tickets, t.kid? = some lt.2) := by
   simp [defaultKeep, isDisAt, hasPermFor, List.any_eq_true, and_assoc, or_assoc]
 
+/-- **a discharge is matched by its ticket alone.**  The Location of a discharge is its minter's choice
+and is not signed; the only thing the bundle asks of it is that it is NOT the permission location
+(else the token is a permission token).  Any well-formed macaroon located elsewhere — trailing slash,
+other case, another host, empty — whose key-id is a ticket of some permission token of the list is
+kept by `DefaultFilter`, is among that token's candidates (`dischargesFor`), and so is handed to
+`verify`; the location written in the third-party CAVEAT plays no part either -/
+theorem discharge_matched_by_ticket_alone (pl : Bytes) (ts : List Tok) (d p : Tok) (m : M)
+    (hd : d ∈ ts) (hm : d.mac? = some m) (hloc : m.loc ≠ pl)
+    (hp : p ∈ ts) (hperm : isPermAt pl p = true) (lt : Bytes × Bytes) (hlt : lt ∈ p.tickets) (hk : m.nonce.kid = lt.2) :
+    defaultKeep pl ts d = true ∧ d ∈ dischargesFor pl ts lt.2 ∧ d ∈ dischargesOf pl ts p ∧
+    d ∈ Filter.default.apply pl ts := by
+  have hnp : isPermAt pl d = false := by simp [isPermAt, hm, hloc]
+  have hdis : isDisAt pl d = true := by simp [isDisAt, Tok.isWellFormed, hm, hnp]
+  have hkid : d.kid? = some lt.2 := by simp [Tok.kid?, hm, hk]
+  have h1 : d ∈ dischargesFor pl ts lt.2 := mem_dischargesFor.mpr ⟨hd, hdis, hkid⟩
+  have h2 : defaultKeep pl ts d = true := defaultKeep_discharge hp hperm hlt h1
+  refine ⟨h2, h1, ?_, ?_⟩
+  · simp only [dischargesOf, List.mem_flatMap]
+    exact ⟨lt, hlt, h1⟩
+  · rw [default_apply]
+    exact List.mem_filter.mpr ⟨hd, h2⟩
+
 /-! ### operation contracts -/
 
 /-- `AddTokens`: a header with a malformed token changes nothing … -/
@@ -494,6 +516,7 @@ end Macaroon.Props.C13
 #print axioms Macaroon.Props.C13.header_parse_print
 #print axioms Macaroon.Props.C13.default_filter_keeps_order
 #print axioms Macaroon.Props.C13.default_filter_keeps
+#print axioms Macaroon.Props.C13.discharge_matched_by_ticket_alone
 #print axioms Macaroon.Props.C13.addTokens_err
 #print axioms Macaroon.Props.C13.addTokens_ok
 #print axioms Macaroon.Props.C13.select_pure
